@@ -9,4 +9,6 @@ Extraction "model.ml"
   bounding_diagonal width height area dist2 center
   reverse_geom orient_geom visited_xys ctrl_xys holes_in_shell_box shells_nonempty tight_spec env_eqb
   is_empty geom_vs force_geom env_points intersects_spec covers_spec dist2_spec
+  dy_of_bits box_dy width_close height_close area_close mid_close mid_sum_overflows dist_sq_exact sqrt_close
+  dist_squares_out_of_range close_to dy_sub dy_mul dy_le dy_lt dy_zero
   N.add N.of_nat N.to_nat Z.add Z.of_N Z.to_N Z.opp Z.mul Z.eqb Z.of_nat.
